@@ -119,11 +119,16 @@ def bounds(vars_):
 def cases(tier):
   out = []
   def mvs(k):
-    return ["none", "le1", "gt1"] if k in ("po2", "relu_po2") else [None]
+    # "v3" / "v6": a max_value that is NOT a power of two and whose log2 rounds UP (the quantizer clips to it and then
+    # rounds log2, so it still emits 4 / 8): get_exp must take the ceiling (seed c16-6)
+    return ["none", "le1", "gt1", "v3", "v6"] if k in ("po2", "relu_po2") else [None]
   for wk in Q.KINDS:
     for xk in Q.KINDS:
       for wmv in mvs(wk):
         for xmv in mvs(xk):
+          if ((wmv or "").startswith("v") and xmv not in (None, "none")) or \
+             ((xmv or "").startswith("v") and wmv not in (None, "none")):
+            continue
           name = "%s%s_x_%s%s" % (wk, "" if wmv is None else "-mv" + wmv, xk, "" if xmv is None else "-mv" + xmv)
           out.append(Case(PROP, MF, name, make_scenario(wk, xk, wmv, xmv), bounds=bounds,
                           replay_kind="c16_mult",
